@@ -4,7 +4,6 @@ import (
 	"fmt"
 	"log"
 	"net"
-	"os"
 	"path/filepath"
 	"strings"
 	"time"
@@ -162,9 +161,15 @@ func RecoverNode(dataDir string, extensions []string, fkEnabled bool, logger *lo
 		return err
 	}
 
-	// Get a path to a temporary file to use for a temporary database.
+	// Get a path to a temporary file to use for a temporary database. An earlier
+	// recovery attempt that failed or was interrupted may have left the database, or
+	// just its WAL, behind. That must not be built upon, since the log is replayed from
+	// the snapshot again.
 	tmpDBPath := filepath.Join(dataDir, "recovery.db")
-	defer os.Remove(tmpDBPath)
+	if err := sql.RemoveFiles(tmpDBPath); err != nil {
+		return fmt.Errorf("failed to remove temporary database of an earlier recovery: %s", err)
+	}
+	defer sql.RemoveFiles(tmpDBPath)
 
 	// Attempt to restore any latest snapshot.
 	var (
